@@ -4,7 +4,7 @@ From V.C19 Require Import Array Proofs.
 Import ListNotations.
 Open Scope Z_scope.
 
-Ltac nstep := cbn [run run_outs exec_instr lookups nth_error obind app fst snd seq unwrap Nat.add].
+Ltac nstep := cbn [run run_outs exec_instr lookups nth_error obind app fst snd seq unwrap Nat.add vsome vnone].
 Ltac nop := unfold op_sem at 1;
   cbn [sem_itousize sem_get sem_set sem_borrow sem_return sem_clone sem_panic sem_iadd]; nstep.
 
